@@ -127,6 +127,11 @@ def r3_multi_arg(ctx):
             kw = dict(rv.kwargs) if isinstance(rv, App) else {}
             operand = rv.args[0] if isinstance(rv, App) and rv.args else None
             inner = operand.args[0] if isinstance(operand, App) and operand.args else None
+            if isinstance(operand, App) and operand.kwargs:
+                ctx.violation("C15.R3", fi.qual, loc(fi), "arguments stacked without conversion",
+                              f"_xp_multi_args converts the stacked arguments with {dict(operand.kwargs)}: pinning e.g. the dtype of the first argument silently casts the others "
+                              f"(NumPy promotes), so the result differs from NumPy and depends on which argument leads a batch")
+                continue
             if nargs > 1:
                 okk = kw.get("axis") == 0 and kw.get("keepdims") is True and isinstance(inner, tuple) and list(inner) == list(args) and "sum" in vkey(rv.fn if isinstance(rv, App) else "")
                 what = "several arrays: stacked (asarray of all arguments) and reduced along the new leading axis 0"
@@ -178,3 +183,32 @@ def r4_take(ctx):
 
 
 RULES = [r1_markers, r2_siblings, r3_multi_arg, r4_take]
+
+
+def r5_xarray_stack(ctx):
+    """C15.R5: XArrayBackend.stack puts the new dimension at position `axis`, keeping the relative order of the existing dimensions
+    (numpy.stack / moveaxis semantics, not a swap)."""
+    repo = ctx.repo
+    fi = repo.func(f"{BK}.xarray.XArrayBackend.stack")
+    ctx.analysed(fi.qual)
+    for axis, want in ((0, None), (1, ["d0", "NEW", "d1", "d2"]), (2, ["d0", "d1", "NEW", "d2"]), (3, ["d0", "d1", "d2", "NEW"])):
+        ret = Obj("xarray.DataArray", {"sizes": {"NEW": 2, "d0": 3, "d1": 4, "d2": 5}}, name="CONCAT")
+        ip = Interp(repo, call_models={"xarray.concat": lambda run, a, k, n, f, _r=ret: run.__dict__.setdefault("m_ret", __import__("copy").deepcopy(_r)),
+                                       "numpy.any": lambda run, a, k, n, f: False})
+        paths = ip.explore(fi, args={"arrays": (Sym("A0"), Sym("A1")), "dim": "NEW", "axis": axis, "method_kwargs": {}})
+        ctx.evals(len(paths))
+        for p in paths:
+            if p.exit[0] != "return":
+                ctx.undecided("C15.R5", loc(fi), f"stack(axis={axis}) not evaluable on the model: {vkey(p.exit[1])[:80]}")
+                continue
+            tr = [e for e in p.effects if e.kind == "call" and e.data.get("method") == "transpose"]
+            got = [x for x in tr[0].data["args"]] if tr else None
+            if got != want:
+                ctx.violation("C15.R5", fi.qual, loc(fi), f"new dimension placed at axis {axis}",
+                              f"inputs with dims (d0, d1, d2) stacked along a new dimension at axis={axis}: result dimension order {got if got else '(NEW, d0, d1, d2)'}, "
+                              f"numpy.stack gives {want if want else '(NEW, d0, d1, d2)'}")
+            else:
+                ctx.ok("C15.R5", loc(fi), f"stack axis={axis}: {want if want else 'new dimension first, no transpose'}")
+
+
+RULES.append(r5_xarray_stack)
